@@ -2166,7 +2166,7 @@ func lockstep(w *world, rng *mon.RNG) {
 func TestCheck(t *testing.T) {
 	rec = mon.Open("C11")
 	defer rec.Close()
-	rec.Note("rule", "a case is one history against the real Broadcaster[int] inside a synctest bubble, recorded at the client boundary with one atomic logical clock and unique values (g<goroutine>-<id>). (race) 1-4 broadcasting goroutines (plus optionally one started later), 1-5 subscribers that are prompt / slow (read only when handed tokens, in small batches) / stalled (no tokens, >11 values outstanding, i.e. past the 10-slot buffer + the forwarder's hand) / leaving (cancel themselves after k receives, are cancelled by a racing goroutine, or are cancelled while a Broadcast is blocked), some subscribing late or two channels per Subscribe call; a subscription brings a fresh channel, or the channel of another subscriber (subscribed again with a different context - each subscription is entitled to its own copy, so a channel is judged with multiset counts: at least one copy per entitled subscription, at most one per subscription ever made on it, order edges only where the pigeonhole principle attributes two values to one subscription), or the same channel twice in one variadic call, or the channel of a subscription that was just cancelled (re-subscribed at once, without waiting for the old forwarder, or after quiescence), or a nil channel (a subscriber that can only leave); the values passed to Broadcast start at 0, the zero value of T; Close at the end / while a Broadcast is blocked / racing / in the middle of the resolution, seeded runtime.Gosched perturbation; the harness ends every stall by tokens or cancel, then demands progress (all Broadcast/Subscribe/Close calls returned, nobody on the mutex, by mon.Quiesce) and judges exactly-once, at-most-once, known values, acyclic precedence graph, nothing from a Broadcast called after Close returned (= the earliest return of any Close call). Wherever the workload closes the broadcaster it issues 2 overlapping Close calls from two goroutines, and each call is judged at its own return: a forwarder goroutine still parked inside the broadcaster (mon.BlockedIn) at that moment refutes \"Close waits for its forwarders\". (lockstep) one operation at a time with a quiescence barrier in between, compared step by step with an exact reference (11 outstanding do not block, the 12th does; what is parked behind a blocked Broadcast runs after it), and judged by the same statement-level oracle at every step. Non-trivial = at least one value was delivered; distinct = distinct plan / step list.")
+	rec.Note("rule", "a case is one history against the real Broadcaster[int] inside a synctest bubble, recorded at the client boundary with one atomic logical clock and unique values (g<goroutine>-<id>). (race) 1-4 broadcasting goroutines (plus optionally one started later), 1-5 subscribers that are prompt / slow (read only when handed tokens, in small batches) / stalled (no tokens, >11 values outstanding, i.e. past the 10-slot buffer + the forwarder's hand) / leaving (cancel themselves after k receives, are cancelled by a racing goroutine, or are cancelled while a Broadcast is blocked), some subscribing late or two channels per Subscribe call; a subscription brings a fresh channel, or the channel of another subscriber (subscribed again with a different context - each subscription is entitled to its own copy, so a channel is judged with multiset counts: at least one copy per entitled subscription, at most one per subscription ever made on it, order edges only where the pigeonhole principle attributes two values to one subscription), or the same channel twice in one variadic call, or the channel of a subscription that was just cancelled (re-subscribed at once, without waiting for the old forwarder, or after quiescence), or a nil channel (a subscriber that can only leave); the values passed to Broadcast start at 0, the zero value of T; Subscribe argument lists vary: one channel, several, none at all, forty, a nil channel in first / middle / last position among fresh channels (the channels listed after the nil one are ordinary subscribers); exactly-once is judged at every quiescent point, and while no Broadcast call is in progress every Subscribe and Close call must have returned; Close at the end / while a Broadcast is blocked / racing / in the middle of the resolution, seeded runtime.Gosched perturbation; the harness ends every stall by tokens or cancel, then demands progress (all Broadcast/Subscribe/Close calls returned, nobody on the mutex, by mon.Quiesce) and judges exactly-once, at-most-once, known values, acyclic precedence graph, nothing from a Broadcast called after Close returned (= the earliest return of any Close call). Wherever the workload closes the broadcaster it issues 2 overlapping Close calls from two goroutines, and each call is judged at its own return: a forwarder goroutine still parked inside the broadcaster (mon.BlockedIn) at that moment refutes \"Close waits for its forwarders\". (lockstep) one operation at a time with a quiescence barrier in between, compared step by step with an exact reference (11 outstanding do not block, the 12th does; what is parked behind a blocked Broadcast runs after it), and judged by the same statement-level oracle at every step. Non-trivial = at least one value was delivered; distinct = distinct plan / step list.")
 	rec.Note("require", []string{
 		"judged", "deliveries", "close.overlapping_calls_checked", "exactly_once_pairs_demanded", "post_close_checked",
 		"hist.broadcast_blocked_on_stalled_reader", "hist.goroutine_parked_on_mutex",
